@@ -46,34 +46,20 @@ let make_payload paylen t k : int list =
   for n = n0 to len - 1 do Buffer.add_char b (Char.chr (Char.code 'a' + (t * 5 + k + n) mod 26)) done;
   List.init (Buffer.length b) (fun i -> Char.code (Buffer.nth b i))
 
-let level_name lv =
-  let i = lv asr 8 in
-  if i >= 0 && i < 6 then [| "TRACE"; "DEBUG"; "INFO"; "WARNING"; "ERROR"; "FATAL" |].(i) else "UNKNOWN"
 let str_bytes s = List.init (String.length s) (fun i -> Char.code s.[i])
 
-(* gmtime for non-negative seconds since the epoch (days -> civil date) *)
-let civil (sec : int) =
-  let days = sec / 86400 and rem = sec mod 86400 in
-  let z = days + 719468 in
-  let era = z / 146097 in
-  let doe = z - era * 146097 in
-  let yoe = (doe - doe / 1460 + doe / 36524 - doe / 146096) / 365 in
-  let y = yoe + era * 400 in
-  let doy = doe - (365 * yoe + yoe / 4 - yoe / 100) in
-  let mp = (5 * doy + 2) / 153 in
-  let d = doy - (153 * mp + 2) / 5 + 1 in
-  let m = if mp < 10 then mp + 3 else mp - 9 in
-  ((if m <= 2 then y + 1 else y), m, d, rem / 3600, (rem mod 3600) / 60, rem mod 60)
-
-(* the two built-in formatters for the threaded scenarios (seq mode uses the oracle lines) *)
+(* The formatted line comes from the MODEL's formatters (Model.builtin_format with the level names
+   re-extracted into code_fmtcfg): level name, clock fields, file:line, function, thread id, payload,
+   newline.  The harness only says where a call was made: the drivers' source location
+   (c16_src.c / c16_case), the canonical clock and thread id of the case. *)
+let msrc_of srcline tid sec nsec : msrc =
+  { ms_file = nlist (str_bytes "c16_src.c"); ms_line = z_of_int srcline; ms_func = nlist (str_bytes "c16_case");
+    ms_tid = z_of_int tid; ms_sec = z_of_int sec; ms_nsec = z_of_int nsec }
 let fmt_line fmt level srcline tid sec nsec (payload : int list) : int list =
-  if fmt = 2 then payload else
-  if fmt = 0 then str_bytes (Printf.sprintf "%s|c16_src.c:%d - " (level_name level) srcline) @ payload @ [10]
-  else begin
-    let (y, mo, d, hh, mi, ss) = civil sec in
-    str_bytes (Printf.sprintf "%s|%d-%02d-%02dT%02d:%02d:%02d.%03d|c16_src.c:%d|c16_case|%d - "
-      (level_name level) y mo d hh mi ss (nsec / 1000000) srcline tid) @ payload @ [10]
-  end
+  let m = { m_level = z_of_int level; m_id = O; m_payload = nlist payload } in
+  List.map int_of_n (builtin_format code_fmtcfg (fun _ -> msrc_of srcline tid sec nsec) (nat_of_int fmt) m)
+(* decimal text of a non-negative int, by the model's renderer *)
+let dec_bytes (n : int) : int list = List.map int_of_n (dec_pad O (z_of_int n))
 
 (* ------------------------------------------------------------------ *)
 let handle (lines : string list) : unit =
@@ -82,19 +68,21 @@ let handle (lines : string list) : unit =
     | x :: rest -> split (x :: acc) rest
     | [] -> (List.rev acc, []) in
   let (cfg, trace) = split [] lines in
-  let mode = ref "seq" and is_async = ref false and capacity = ref 0 and fixed = ref true in
+  let mode = ref "seq" and is_async = ref false and capacity = ref 0 and fixed = ref true and init_logger = ref 0 in
   let hss = ref [] and ops = ref [] and thn = ref 0 and thm = ref 0 and thp = ref 0 in
   let sec = ref 1700000000 and nsec = ref 123456789 and lossy = ref false and tick = ref 0 in
   List.iter (fun l -> match words l with
     | ["mode"; m] -> mode := m
     | "logger" :: "async" :: c :: _ -> is_async := true; capacity := int_of_string c
+    | "logger" :: "inits" :: _ -> is_async := false; init_logger := 1
+    | "logger" :: "initc" :: _ -> is_async := false; init_logger := 2
     | "logger" :: _ -> is_async := false
     | ["clock"; a; b] -> sec := int_of_string a; nsec := int_of_string b
-    | ["h"; k; lv; f] -> hss := !hss @ [{ kind = k; level = int_of_string lv; fmt = if f = "complicated" then 1 else if f = "raw" then 2 else 0 }]
+    | ["h"; k; lv; f] -> hss := !hss @ [{ kind = k; level = int_of_string lv; fmt = if f = "complicated" then 1 else if f = "raw" then 2 else if f = "initsimple" then 3 else 0 }]
     | ["setlevel"; i; lv] -> ops := !ops @ [`Set (int_of_string i, int_of_string lv)]
     | ["failmalloc"; k] -> ops := !ops @ [`Fail (int_of_string k)]
-    | "log" :: lv :: _ -> ops := !ops @ [`Log (int_of_string lv)]
-    | "hold" :: lv :: _ -> ops := !ops @ [`Hold (int_of_string lv)]
+    | "log" :: lv :: sl :: tm :: rest -> ops := !ops @ [`Log (int_of_string lv, int_of_string sl, tm, match rest with h :: _ -> h | [] -> "")]
+    | "hold" :: lv :: sl :: tm :: rest -> ops := !ops @ [`Hold (int_of_string lv, int_of_string sl, tm, match rest with h :: _ -> h | [] -> "")]
     | "release" :: _ -> ops := !ops @ [`Release]
     | ["threads"; n; m; p] -> thn := int_of_string n; thm := int_of_string m; thp := int_of_string p
     | "lossy" :: _ -> lossy := true
@@ -108,14 +96,28 @@ let handle (lines : string list) : unit =
   if !mode = "thr" then print_endline "mode thr";
   if !lossy then print_endline "lossy";
   let lv = code_levels in
-  (* oracle lines of the implementation *)
-  let oracle = Hashtbl.create 16 in
-  List.iter (fun l -> match words l with
-    | "call" :: idx :: _lvl :: t :: s :: c :: r :: _ ->
-      Hashtbl.replace oracle (int_of_string idx)
-        (bytes_of_field (after_eq t), bytes_of_field (after_eq s), bytes_of_field (after_eq c), bytes_of_field (after_eq r));
-      if !mode = "seq" then print_endline l
-    | _ -> ()) trace;
+  (* the calls of a sequential case: level, source line, the text vsnprintf would produce without a limit
+     ("s": the content; "ds": "%d|%s" of the source line and the content; "lit": the content as format).
+     The implementation prints, per call, that text and what its formatters make of the (bounded) payload
+     in an unbounded buffer; the model prints the same lines from its own formatters. *)
+  let calls = Array.of_list (List.filter_map (fun o -> match o with
+    | `Log (lv, sl, tm, hx) | `Hold (lv, sl, tm, hx) ->
+      let content = bytes_of_field (":" ^ hx) in
+      Some (lv, sl, (if tm = "ds" then dec_bytes sl @ [124] @ content else content))
+    | _ -> None) !ops) in
+  let src (id : nat) : msrc =
+    let i = int_of_nat id in
+    let sl = if i >= 0 && i < Array.length calls then (let (_, s, _) = calls.(i) in s) else 0 in
+    msrc_of sl 4242 !sec !nsec in
+  let format = builtin_format code_fmtcfg src in
+  let text_of idx = if idx < Array.length calls then (let (_, _, t) = calls.(idx) in t) else [] in
+  if !mode = "seq" then
+    Array.iteri (fun idx (level, _sl, text) ->
+      let m = { m_level = z_of_int level; m_id = nat_of_int idx; m_payload = payload_of code_limit (nlist text) } in
+      let f k = let b = List.map int_of_n (format (nat_of_int k) m) in Printf.sprintf "%d:%s" (List.length b) (hex_of_bytes b) in
+      Printf.printf "call %d %d text=%d:%s simple=%s complicated=%s raw=%s\n" idx level (List.length text) (hex_of_bytes text)
+        (f 0) (f 1) (f 2)) calls;
+  ignore trace;
   (* attach handlers *)
   let lg = ref (logger_init lv) in
   let added = Array.make nh false in
@@ -123,6 +125,21 @@ let handle (lines : string list) : unit =
     let (lg', ok) = add_handler lv !lg { h_kind = hkind_of h.kind; h_level = z_of_int h.level; h_fmt = nat_of_int h.fmt } in
     lg := lg'; added.(i) <- ok;
     Printf.printf "add %d %s\n" i (if ok then "ok" else "refused")) hss;
+  if !init_logger > 0 then begin
+    (* muggle_log_simple_init / muggle_log_complicated_init: the handlers they attach and, per call, the unbounded
+       output of the formatter they install (3 = muggle_log_simple_init_fmt, 1 = the complicated layout) *)
+    Printf.printf "initcnt %d\n" (List.length (!lg).lg_handlers);
+    if (!lg).lg_handlers <> [] then begin
+      let k = ref 0 in
+      List.iter (fun o -> match o with
+        | `Log (level, _, _, _) ->
+          let m = { m_level = z_of_int level; m_id = nat_of_int !k; m_payload = payload_of code_limit (nlist (text_of !k)) } in
+          let b = List.map int_of_n (format (nat_of_int (if !init_logger = 1 then 3 else 1)) m) in
+          Printf.printf "icall %d %d init=%d:%s\n" !k level (List.length b) (hex_of_bytes b); incr k
+        | `Hold _ -> incr k
+        | _ -> ()) !ops
+    end
+  end;
   (* handler index in the logger's list = position among the added ones *)
   let pos_of = Array.make nh (-1) in
   let c = ref 0 in
@@ -148,6 +165,7 @@ let handle (lines : string list) : unit =
         Printf.printf "out %d %d:%s\n" i (String.length out / 2) out;
         Printf.printf "err %d %d:%s\n" i (String.length err / 2) err
       end else begin
+        let out = if h.kind = "filea" then hex_of_bytes (str_bytes "PRE-EXISTING LINE\n") ^ out else out in
         Printf.printf "file %d %d:%s\n" i (String.length out / 2) out;
         if h.kind = "cap" && !mode = "seq" then
           Printf.printf "rets %d%s\n" i (String.concat "" (List.map (fun r -> " " ^ string_of_int r) rets.(i)))
@@ -155,20 +173,16 @@ let handle (lines : string list) : unit =
   let has_hold = List.exists (fun o -> match o with `Hold _ | `Release -> true | _ -> false) !ops in
   if !mode = "seq" && !is_async && has_hold then begin
     (* queue view of the async logger: the writer thread is stopped (hold) and released by the harness *)
-    let format k (m : lmsg) =
-      let (_, fs, fc, fr) = try Hashtbl.find oracle (int_of_nat m.m_id) with Not_found -> ([], [], [], []) in
-      nlist (match int_of_nat k with 0 -> fs | 1 -> fc | _ -> fr) in
     let st = ref { aq_lg = !lg; aq_held = None; aq_pending = [] } in
     let idx = ref 0 in
     let step o = let (s', ems) = aseq_step format lv code_limit !fixed !st o in st := s'; emit_all ems in
     let log hold level =
-      let (text, _, _, _) = try Hashtbl.find oracle !idx with Not_found -> ([], [], [], []) in
-      step (AOLog (hold, z_of_int level, nat_of_int !idx, nlist text)); incr idx in
+      step (AOLog (hold, z_of_int level, nat_of_int !idx, nlist (text_of !idx))); incr idx in
     List.iter (fun o -> match o with
       | `Set (i, l) -> if i >= 0 && i < nh && pos_of.(i) >= 0 then step (AOSet (nat_of_int pos_of.(i), z_of_int l))
       | `Fail _ -> ()
-      | `Log level -> log false level
-      | `Hold level -> log true level
+      | `Log (level, _, _, _) -> log false level
+      | `Hold (level, _, _, _) -> log true level
       | `Release -> step AORelease) !ops;
     step AORelease;
     print_endline "F destroyed=1 live=0";
@@ -178,12 +192,10 @@ let handle (lines : string list) : unit =
     let idx = ref 0 and fail = ref 0 in
     List.iter (fun o -> if not !crashed then match o with
       | `Release -> ()
-      | `Hold level when false -> ignore level
       | `Set (i, l) -> if i >= 0 && i < nh && pos_of.(i) >= 0 then lg := set_level !lg (nat_of_int pos_of.(i)) (z_of_int l)
       | `Fail k -> fail := k
-      | `Log level | `Hold level ->
-        let (text, fs, fc, fr) = try Hashtbl.find oracle !idx with Not_found -> ([], [], [], []) in
-        let format k (_m : lmsg) = nlist (match int_of_nat k with 0 -> fs | 1 -> fc | _ -> fr) in
+      | `Log (level, _, _, _) | `Hold (level, _, _, _) ->
+        let text = text_of !idx in
         if !is_async then begin
           (match async_log_seq format lv code_limit !fixed !lg (z_of_int level) (nat_of_int !idx) (nlist text)
                    (!fail <> 1) (!fail <> 2) with
@@ -284,9 +296,35 @@ let handle (lines : string list) : unit =
       let (hx, n) = cells_hex w.hw_out in
       let a = n / 2 in
       if int_of_nat half = 1 then String.sub hx 0 (2 * a) else String.sub hx (2 * a) (2 * (n - a)) in
+    (* a console handler: stdout below WARNING, stderr from WARNING on; with colours the escape sequence goes out
+       before the first part of the line and the reset after the second (Model.handler_emit) *)
+    let con_chunk p ((t, k), half) : int * string =
+      let t' = int_of_nat t - off and k' = int_of_nat k in
+      let hi = ref 0 in
+      Array.iteri (fun i q -> if q = p then hi := i) pos_of;
+      let level = thr_level t' k' in
+      let payload = make_payload !thp t' k' in
+      let srcf = fun _ -> msrc_of (1000 + t') (100 + t') (!sec + k' * !tick) !nsec in
+      let h = { h_kind = hkind_of hss.(!hi).kind; h_level = z_of_int hss.(!hi).level; h_fmt = nat_of_int hss.(!hi).fmt } in
+      let m = { m_level = z_of_int level; m_id = O; m_payload = payload_of code_limit (nlist payload) } in
+      let ((_, st), cells) = handler_emit (builtin_format code_fmtcfg srcf) code_levels code_limit true O h m in
+      let (hx, total) = cells_hex cells in
+      let line = builtin_format code_fmtcfg srcf h.h_fmt m in
+      let n = List.length (handler_write true code_limit line).hw_out in
+      let post = if total > n then List.length esc_rst else 0 in
+      let pre = total - n - post in
+      let cut = pre + n / 2 in
+      (int_of_nat st, if int_of_nat half = 1 then String.sub hx 0 (2 * cut) else String.sub hx (2 * cut) (2 * (total - cut))) in
     let dump_chunks (out : nat -> chunk list) =
-      Array.iteri (fun i _ ->
-        if pos_of.(i) >= 0 then begin
+      Array.iteri (fun i h ->
+        if String.length h.kind >= 3 && String.sub h.kind 0 3 = "con" then begin
+          let bo = Buffer.create 256 and be = Buffer.create 256 in
+          if pos_of.(i) >= 0 then
+            List.iter (fun c -> let (st, hx) = con_chunk pos_of.(i) c in Buffer.add_string (if st = 1 then be else bo) hx)
+              (out (nat_of_int pos_of.(i)));
+          Printf.printf "out %d %d:%s\n" i (Buffer.length bo / 2) (Buffer.contents bo);
+          Printf.printf "err %d %d:%s\n" i (Buffer.length be / 2) (Buffer.contents be)
+        end else if pos_of.(i) >= 0 then begin
           let hx = String.concat "" (List.map (chunk_bytes pos_of.(i)) (out (nat_of_int pos_of.(i)))) in
           Printf.printf "file %d %d:%s\n" i (String.length hx / 2) hx
         end else Printf.printf "file %d 0:\n" i) hss in
